@@ -121,8 +121,29 @@ def scan_call_sites(ctx: Ctx):
                 for kw in node.keywords:
                     if kw.arg == "seed":
                         seed = kw.value
-                out.append((m, node, seed))
+                out.append((m, node, _literal_of_local(m, node, seed)))
     return out
+
+
+def _literal_of_local(m, at, node):
+    """seed = (False, None, NO_VALUE) ... scan(acc, seed=seed): the literal a local name is bound to (one assignment in
+    the enclosing function), else the node itself"""
+    if not isinstance(node, ast.Name):
+        return node
+    fn = m.enclosing_function(at)
+    while fn is not None:
+        vals = [n for n in ast.walk(fn) if isinstance(n, (ast.Assign, ast.AugAssign, ast.For, ast.NamedExpr)) and m.enclosing_function(n) is fn
+                and any(isinstance(x, ast.Name) and x.id == node.id and isinstance(x.ctx, ast.Store) for x in ast.walk(n))]
+        params = {a.arg for a in fn.args.args + fn.args.kwonlyargs + fn.args.posonlyargs} if isinstance(fn, ast.FunctionDef) else set()
+        if node.id in params:
+            return node
+        if vals:
+            if len(vals) == 1 and isinstance(vals[0], ast.Assign) and len(vals[0].targets) == 1 and isinstance(vals[0].targets[0], ast.Name) \
+                    and isinstance(vals[0].value, (ast.Constant, ast.Tuple, ast.List, ast.Dict, ast.Set)):
+                return vals[0].value
+            return node
+        fn = m.enclosing_function(fn)
+    return node
 
 
 def _seed_class(seed):
@@ -175,7 +196,23 @@ def _feasible(p):
     return True
 
 
-def _skeleton(p, kind, is_mux):
+def _plain_acc_var(ctx, specs):
+    """the closure variable in which the plain scan keeps its accumulator: the one that receives the result of the
+    accumulator call"""
+    names = set()
+    from ..model import valuations
+    for sp in specs:
+        for cfg in valuations(ctx.space(sp)):
+            for p in ctx.paths(sp, None, cfg):
+                for e in p.trace:
+                    if e.k == "nonlocal" and e.value[0] == "ucall" and e.value[1] == "accumulator":
+                        names.add(e.name)
+    if len(names) != 1:
+        raise AnalysisError("scan_obs: expected one closure variable receiving the accumulator result, found %s" % sorted(names))
+    return next(iter(names))
+
+
+def _skeleton(p, kind, is_mux, accvar="state"):
     """Abstract summary of a normal path of scan_mux / scan_obs."""
     reads = {}
     out = []
@@ -189,15 +226,17 @@ def _skeleton(p, kind, is_mux):
             if e.name == "seed":
                 out.append("fresh-seed")
             else:
-                out.append("%s(%s)" % (e.name, ",".join(_value_role(a, reads) for a in e.args)))
+                out.append("%s(%s)" % (e.name, ",".join(_value_role(a, reads, (accvar,)) for a in e.args)))
         elif e.k == "call" and e.func == ("glob", "copy.deepcopy"):
             out.append("fresh-seed")
         elif e.k == "store" and e.op == "set_state":
             role = _value_role(e.extra[0], reads)
             last_stored[(e.state, e.key)] = role
             out.append("store(%s)" % role)
-        elif e.k == "nonlocal" and e.name == "state":
-            out.append("store(%s)" % _value_role(e.value, reads))
+        elif e.k == "nonlocal" and e.name == accvar:
+            out.append("store(%s)" % _value_role(e.value, reads, (accvar,)))
+        elif e.k == "nonlocal" and not is_mux:
+            out.append("store(other:%s)" % show(e.value))
         elif e.k == "emit":
             if e.method == "on_next":
                 m = Emission(e, kind, 0)
@@ -209,7 +248,7 @@ def _skeleton(p, kind, is_mux):
                     else:
                         out.append("emit?")
                 else:
-                    out.append("emit(%s)" % _value_role(e.arg, reads))
+                    out.append("emit(%s)" % _value_role(e.arg, reads, (accvar,)))
             else:
                 out.append(e.method)
     # writing the accumulator back and emitting it commute (no observable difference on normal paths)
@@ -229,6 +268,7 @@ def rule_sc1(ctx: Ctx):
     r.instances += 1
     ra.instances += 1
     from ..model import valuations
+    accvar = _plain_acc_var(ctx, [ospec_next, ospec_comp])
     space = ctx.space(spec)
     if set(space) != {"reduce", "terminator"}:
         raise AnalysisError("scan_mux: configuration parameters tested are %s, expected reduce and terminator" % sorted(space))
@@ -288,12 +328,12 @@ def rule_sc1(ctx: Ctx):
         for p in ctx.paths(ospec_next, None, cfg):
             ra.paths += 1
             if _normal(p):
-                sk_obs_next.add(tuple(x for x in _skeleton(p, None, False) if x != "store(other:True)"))
+                sk_obs_next.add(tuple(x for x in _skeleton(p, None, False, accvar) if x != "store(other:True)"))
         sk_obs_comp = set()
         for p in ctx.paths(ospec_comp, None, cfg):
             ra.paths += 1
             if _normal(p):
-                sk_obs_comp.add(tuple(x for x in _skeleton(p, None, False) if x not in ("store(other:True)", "on_completed")))
+                sk_obs_comp.add(tuple(x for x in _skeleton(p, None, False, accvar) if x not in ("store(other:True)", "on_completed")))
         ra.groups.add(("scan siblings", cfg_str(cfg)))
         ra.ob(sk_mux_next == sk_obs_next, lambda: Finding(
             "AG-3", "scan_mux/scan_obs[Next]{%s}" % cfg_str(cfg), ospec_next.module.where(ospec_next.fn),
